@@ -29,6 +29,9 @@ def generate(rseed, tier='quick'):
   r = core.rng_for(rseed, 'trace')
   if r.random() < 0.7:
     mdesc = {'kind': 'gen', 'seed': r.randrange(1 << 30), 'max_ops': r.randint(1, 8)}
+    if r.random() < 0.12:
+      # unusual but legal input: a constant buffer whose data vector is present and empty
+      mdesc['empty_buffer'] = r.choice(['tensor', 'orphan'])
   else:
     mdesc = {'kind': 'corpus', 'name': r.choice(modelgen.CORPUS + EXTRA_CORPUS)}
   spec, _ = modelgen.get_model(mdesc)
@@ -326,6 +329,8 @@ def execute(doc):
       continue
     rec.fault('large_path')
     rec.nontrivial = True
+    if mdesc.get('empty_buffer'):
+      rec.probe('present_but_empty_buffer')
     _probe_int4(rec, small)
     if not structural(rec, step, small, large):
       rec.event(step, 'quantize', 'structural-violation')
